@@ -79,15 +79,19 @@ def run(ctx):
     lookback = ["PatternSearch", "HillClimbingOptimizer", "StochasticHillClimbingOptimizer", "RepulsingHillClimbingOptimizer", "SimulatedAnnealingOptimizer",
                 "RandomRestartHillClimbingOptimizer", "RandomAnnealingOptimizer", "DownhillSimplexOptimizer", "PowellsMethod", "PatternSearch", "PatternSearch"]
     for rd in range(1 if ctx.quick else 4):
-        for name in gen.ALL + lookback + lookback:
+        plus = sorted(set(lookback)) * 2        # and, per look-back optimizer, two runs whose only non-finite value is +inf (the one that wins `>`)
+        for ix_, name in enumerate(gen.ALL + lookback + lookback + plus):
+            only_plus_inf = ix_ >= len(gen.ALL) + 2 * len(lookback)
             slow = name in gen.SLOW
             spec = dunit.general_spec(rng2, name, max_calls=1, metrics=0, sizes=(5, 8, 12), max_points=150, n_max=40, verbosity=False,
                                       steps_api=True, ndims=2, nonfinite=rng2.choice([0.25, 0.4]))
-            if rng2.random() < 0.5:
+            if only_plus_inf:
+                spec["table"] = {p_: ((math.inf, None) if rng2.random() < 0.25 else (v_[0] if math.isfinite(v_[0]) else -1.0, None)) for p_, v_ in spec["table"].items()}
+            elif rng2.random() < 0.5:
                 # a contiguous penalty region (score -inf / NaN beyond a diagonal) instead of scattered non-finite points
                 dims_ = [len(v) for v in spec["space"].values()]
                 cut = int(sum(dims_) * rng2.choice([0.45, 0.6]))
-                pen = rng2.choice([-math.inf, -math.inf, math.nan])
+                pen = rng2.choice([-math.inf, -math.inf, math.nan, math.inf])
                 spec["table"] = {p_: ((pen, None) if sum(p_) > cut else (-float((p_[0] - dims_[0] + 1) ** 2 + (p_[1] - dims_[1] + 1) ** 2), None)) for p_ in spec["table"]}
             if name in ("GeneticAlgorithmOptimizer", "DifferentialEvolutionOptimizer"):
                 spec["cfg"] = {k: v for k, v in (spec["cfg"] or {}).items() if k != "population"}
